@@ -187,7 +187,9 @@ func (c *client) Execute(
 		StepID: stepData.ID,
 		Config: stepData.InputData,
 	}
-	cborReader := c.decMode.NewDecoder(c.rawAtpChannels)
+	// All reads must go through the client's one decoder: a decoder reads ahead, so bytes it has already
+	// buffered (the start of the next message, a trailing error or signal message) would be lost to a new one.
+	cborReader := c.decoder
 	if c.atpVersion > 1 {
 		// Wrap it in a runtime message.
 		workStartMsg = RuntimeMessage{RunID: stepData.RunID, MessageID: MessageTypeWorkStart, MessageData: workStartMsg}
